@@ -16,7 +16,7 @@ LEVEL_NOTE = "Trusted: probe on _ControlLoopRunner._process_tick (attached from 
 DESIGN_REF = "§5 C11"
 RULE = "case = generated program + schedule (+ resume point); distinct = tick-order signature hash; non-trivial = run had >= 8 ticks"
 REQUIRED_REACH = ["state_compare", "compare_with_in_progress", "compare_with_waiters", "compare_with_collected", "compare_with_retry_attempts", "resumed_case",
-                  "family_fan", "family_wait", "family_retry", "family_collect", "family_catch"]
+                  "family_fan", "family_wait", "family_retry", "family_collect", "family_catch", "public_view_compare", "public_view_with_in_progress"]
 ASSUMPTIONS = ["<= 150 ticks per run"]
 FAMILIES = [("fan", 2), ("wait", 2), ("retry", 2), ("collect", 1), ("catch", 1), ("outcomes", 1)]
 
@@ -64,6 +64,9 @@ def _hook(acc, case, box):
             if w["collected"]:
                 acc.hit("compare_with_collected")
         d = oracles.diff_state(live, reb)
+        if not d:
+            # the public face is built on the same replay: it is only news where the direct replay agrees with the live state
+            _public_view(acc, case, box, runner, tick, len(ticks))
         if d:
             box["violated"] = True
             field = d[0][0] if d[0][0] == "is_running" else d[0][1]
@@ -72,6 +75,54 @@ def _hook(acc, case, box):
                           f"after tick #{len(ticks)} ({type(tick).__name__}) live vs rebuilt differ: {json.dumps(d[:2], default=str)[:600]}", case)
 
     return after_tick
+
+
+def _ser_view(d):
+    """comparable view of a serialized context's workers: timestamps dropped (replay stamps its own clock)"""
+    out = {}
+    for name, w in (d.get("workers") or {}).items():
+        out[name] = {
+            "queue": [(q.get("event"), q.get("attempts") or 0, tuple(sorted((q.get("recovery_counts") or {}).items()))) for q in (w.get("queue") or [])],
+            "in_progress": sorted(w.get("in_progress") or []),
+            "collected_events": {k: list(v) for k, v in (w.get("collected_events") or {}).items() if v},
+            "waiters": sorted((cw.get("waiter_id"), cw.get("resolved_event") is not None, bool(cw.get("timed_out"))) for cw in (w.get("collected_waiters") or [])),
+        }
+    return {"is_running": d.get("is_running"), "workers": out}
+
+
+def _public_view(acc, case, box, runner, tick, n_ticks):
+    """the same comparison through the public face: handler.ctx.to_dict() / running_steps(), asked after EVERY tick of the same
+    handler (so anything the external context keeps between calls is exercised), vs the live state serialized the same way"""
+    from vf import engine_run
+    from workflows.context.serializers import JsonSerializer
+
+    tr = engine_run._CUR["trace"]
+    handler = getattr(tr, "handler", None)
+    if handler is None or box.get("pub_violated"):
+        return
+    try:
+        ext = handler.ctx.to_dict()
+    except Exception as e:  # noqa: BLE001
+        box["pub_violated"] = True
+        acc.violation({"mech": "to_dict_raises_mid_run", "exc": type(e).__name__}, f"handler.ctx.to_dict() after tick #{n_ticks} ({type(tick).__name__}) raised {e!r}", case)
+        return
+    live = json.loads(json.dumps(runner.state.to_serialized(JsonSerializer()).model_dump(mode="python")))
+    a, b = _ser_view(live), _ser_view(json.loads(json.dumps(ext)))
+    acc.hit("public_view_compare")
+    if any(w["in_progress"] for w in a["workers"].values()):
+        acc.hit("public_view_with_in_progress")
+    if a != b:
+        # only report what the rebuilt-state comparison does not already explain (same known mechanisms)
+        names = [n for n in a["workers"] if a["workers"][n] != b["workers"].get(n)]
+        fields = sorted({f for n in names for f in a["workers"][n] if a["workers"][n][f] != (b["workers"].get(n) or {}).get(f)}) or ["is_running"]
+        box["pub_violated"] = True
+        acc.violation({"mech": "to_dict_differs_from_live", "field": fields[0], "elapsed_time_policy": _uses_elapsed(case["case"]["spec"]),
+                       "resumed": bool(case.get("phase") == "resumed")},
+                      f"after tick #{n_ticks} ({type(tick).__name__}) ctx.to_dict() != live state in steps {names[:3]} fields {fields}: "
+                      f"live {json.dumps({n: a['workers'][n] for n in names[:1]}, default=str)[:300]} vs to_dict {json.dumps({n: b['workers'].get(n) for n in names[:1]}, default=str)[:300]}", case)
+        return
+    running_live = sorted(n for n, w in a["workers"].items() if w["in_progress"])
+    box.setdefault("running_checks", []).append((handler, running_live, n_ticks))
 
 
 def run_one(case, acc):
